@@ -112,7 +112,7 @@ theorem step_StoreOk (cfg : Cfg) (s : St) (op : Op) (hs : StoreOk s) (ho : OpOk 
   | setRespTimeout ms => exact hs
   | acquire => exact hs
   | register id => exact hs
-  | release id => simpa [step, releasePacketId] using hs
+  | release id => simpa [step] using hs
   | erase id => exact eraseStoredPublish_sl _ id hs
   | restoreHandled ids => exact hs
   | restorePackets ps => exact restorePackets_sl _ ps ho hs
